@@ -5,6 +5,8 @@ import os
 
 HERE = os.path.dirname(os.path.dirname(os.path.abspath(__file__)))
 
+NOTE = "Trusted: Lean kernel (axioms propext, Quot.sound, Classical.choice only), gen_tables.py, the correspondence harness and Driver.lean, CPython semantics of the primitives named in the evidence file's assumptions. SHA-1 is uninterpreted in the theorems."
+
 # property -> (design section, technique, level text, level note)
 CLAIMED = {
     "C02": (
@@ -19,11 +21,50 @@ CLAIMED = {
         "Machine-checked Lean 4 theorems over an executable model of snapshot_git_object: any insertion order of a branch map with distinct names gives the same manifest, id and unresolved report; an independent decoder recovers every (kind, name, target) for NUL-free names and targets of any length; equal manifests imply equal branch maps; the report lists exactly the aliases pointing to a missing branch or to themselves, in name order; strict formatting fails iff the report is non-empty and ignore_unresolved never fails. Kind names are tied to the live SnapshotTargetType enum by a regenerated table. Differential check against the compiled model on every run.",
         "Trusted: Lean kernel (axioms propext, Quot.sound, Classical.choice only), gen_tables.py, the correspondence harness, CPython dict/sorted semantics, hashlib. SHA-1 is uninterpreted in the theorems.",
     ),
+    "C03": (
+        "§6 C03",
+        "Lean 4 theorems (header-codec round trip for arbitrary values, independent commit parser recovers all fields, injectivity, legacy-header equivalence) + model/implementation correspondence + git commit-tree / dulwich oracles",
+        "Machine-checked Lean 4 theorems over an executable model of revision_git_object: an independent four-state header parser inverts format_git_object_from_headers for git-valid keys and arbitrary (multi-line, empty, space-leading) values and any message; the commit parser built on it recovers tree, parents (empty ids skipped, order kept), author/committer lines (exact date text, verbatim offset bytes), extra headers and message for every presence combination; equal manifests imply equal fields; headers given as attribute or inside legacy metadata give the same manifest. Non-commit attributes are not inputs of the model; the harness varies them on the implementation. Differential check against the compiled model on every run; real git and dulwich on the subset they can express.",
+        NOTE + " Header keys are assumed git-valid for the parser theorems (the commit format itself is ambiguous otherwise; Lean examples exhibit the collisions).",
+    ),
+    "C04": (
+        "§6 C04",
+        "Lean 4 theorems (independent tag parser recovers all fields with no hypothesis, injectivity, regenerated target-type table) + model/implementation correspondence + dulwich / git hash-object oracles",
+        "Machine-checked Lean 4 theorems over an executable model of release_git_object: for all target types, tagger/date presence and message absent/empty/arbitrary (names and taggers with newlines), an independent tag parser recovers object, type, tag, tagger line and message; equal manifests imply equal fields; the target-type table is regenerated from the live code and proved equal to content->blob, directory->tree, revision->commit, release->tag, snapshot->refs and injective. Differential check against the compiled model on every run.",
+        NOTE,
+    ),
+    "C15": (
+        "§6 C15",
+        "Lean 4 theorems (ExtID and metadata manifest parsers recover every field, optional lines iff set, date only through the UTC second, different seconds give different manifests) + model/implementation correspondence over every admissible context subset",
+        "Machine-checked Lean 4 theorems over executable models of extid_git_object and raw_extrinsic_metadata_git_object: independent parsers recover every field (version line iff non-zero, payload lines iff set, the seven context lines iff set and in the fixed order) for arbitrary bytes with newlines; ExtID attributes are determined by the manifest; the metadata manifest depends on the discovery date only through floor(utcMicros/10^6) and different seconds give different manifests (before and after the epoch). Differential check on every admissible context subset of every target kind on every run.",
+        NOTE + " Authority type and fetcher version are space-free as the format requires.",
+    ),
+    "C16": (
+        "§6 C16",
+        "Lean 4 arithmetic theorems (offset round trip over the whole 16-bit range, -0000 iff negative UTC, exact date text, floor/remainder, datetime round trip, range check against regenerated bounds) + exhaustive offset correspondence",
+        "Machine-checked Lean 4 theorems over executable models of from_numeric_offset/_parse_offset_bytes/format_date/from_datetime/to_datetime/Timestamp validators: every offset in [-32768,32767] with an admissible flag round-trips through its +-HHMM bytes (a general proof, not an enumeration); -0000 is produced iff offset 0 with the negative-UTC flag; the manifest date text parses back to exactly (seconds, microseconds); seconds are the floor and microseconds the remainder; datetime->model->datetime is the identity for |offset|<24h; the accepted ranges are the regenerated class constants and equal the documented bounds. All 65 536 offsets x flag are also compared with the implementation on every run.",
+        NOTE + " datetime/iso8601/dateutil arithmetic is a contract exercised by the correspondence, not proved.",
+    ),
+    "C17": (
+        "§6 C17",
+        "Lean 4 invariant + termination proof over every pop order and every sampling sequence (nondeterminism universally quantified) + replay of recorded schedules against the implementation + brute-force oracle",
+        "Machine-checked Lean 4 theorems over an executable model of discovery.py in which set.pop and random.sample are arbitrary oracles: for every object graph, every closed known set, every sample size and every schedule, the run terminates within |objects| queries, the invariant known subset of K / unknown disjoint from K / partition holds after every pop and query, the three returned lists are exactly the inputs filtered by not-known in input order, and the callback log contains every object once with the right flag. The correspondence records the implementation's actual pops and samples and replays them on the model.",
+        NOTE,
+    ),
+    "C20": (
+        "§6 C20",
+        "Lean 4 proof of Kahn's algorithm as coded (permutation + parents-first for every well-formed log, fuel never exhausted) + exact-sequence correspondence",
+        "Machine-checked Lean 4 theorems over an executable model of toposort.py (FIFO queue, in-degree dict, children multimap, repeated parent ids): for every log with distinct ids, closed under parents and acyclic, the output is a permutation of the input and every revision is yielded strictly after all its parents. The model reproduces the implementation's exact yield order, compared on every run over random DAGs and input permutations.",
+        NOTE,
+    ),
 }
 
 PENDING_REASON = "check not built yet in this revision of /verif (planned in DESIGN.md §6; Lean model and correspondence harness under construction)"
 
 ALL = [f"C{i:02d}" for i in range(1, 21)]
+
+
+NOTE = "Trusted: Lean kernel (axioms propext, Quot.sound, Classical.choice only), gen_tables.py, the correspondence harness and Driver.lean, CPython semantics of the primitives named in the evidence file's assumptions. SHA-1 is uninterpreted in the theorems."
 
 
 def main():
